@@ -168,6 +168,13 @@ def run(rep, ctx):
                         samples=[dict(engine=c[1], ops=[list(o) for o in c[2][0][1]]) for c in cases[:3]],
                         traces_validated_against_impl=n,
                         components={"K-life": dict(machines=n, disagreements=len(disagreements))})
+    # stop() of an interpreter that is an actor: what it had scheduled towards OTHER live actors must die with it
+    from harness.props import c15
+    adis, afails, astats = c15.actor_component(c15.silence_family(rng, 400 if big else 80), "c14_silence")
+    afails = [f for f in afails if f.get("signature") is None]
+    disagreements += adis
+    failures += afails
+    rep.coverage["components"]["K-actor (stop silences delayed sends)"] = dict(scenarios=astats["cases"], steps=astats["steps"], disagreements=len(adis))
     core.decide(rep, ctx["proof"], disagreements, failures, None)
     rep.assumptions += ["liveness of OS threads / asyncio tasks after stop() is observed through the interpreter's own registries (task manager, "
                         "timer table) and by letting virtual time pass; it is monitored, not proved"]
@@ -175,7 +182,10 @@ def run(rep, ctx):
 
 def replay(payload):
     import base64, pickle
-    case = payload.get("case")
+    case = payload.get("case") or (payload.get("first_disagreement") or {}).get("case")
+    if case and "steps" in case:
+        from harness.props import c15
+        return c15.replay(payload)
     if not case or "am_b64" not in case:
         print("no concrete case:", payload.get("broken"))
         return 1
